@@ -153,6 +153,19 @@ func mockCatalogue() []mockCase {
 		return mockFile(pkg, []*spec.Field{spec.F("title", 1, spec.String).With(func(a *spec.Ann) { a.Examples = []string{"top-a", "top-b"} }), spec.FM("kid", 2, "."+pkg+".MKid")},
 			&spec.Message{Name: "MKid", Fields: []*spec.Field{spec.F("title", 1, spec.String).With(func(a *spec.Ann) { a.Examples = []string{"kid-a"} })}})
 	}})
+	// one message type reached along several non-recursive paths of one response
+	out = append(out, mockCase{ID: "mock/examples/same-type-several-paths", Examples: map[string][]string{"owner.title": {"t1", "t2"}, "editor.title": {"t1", "t2"}, "reviewers.*.title": {"t1", "t2"}, "watchers.*.title": {"t1", "t2"}, "owner.age": {"31", "47"}, "editor.age": {"31", "47"}, "box.inner.title": {"t1", "t2"}},
+		ExKind: map[string]string{"owner.title": "string", "editor.title": "string", "reviewers.*.title": "string", "watchers.*.title": "string", "owner.age": "int", "editor.age": "int", "box.inner.title": "string"}, Build: func(pkg string) *spec.File {
+			kid := &spec.Message{Name: "MKid", Fields: []*spec.Field{spec.F("title", 1, spec.String).With(func(a *spec.Ann) { a.Examples = []string{"t1", "t2"} }), spec.F("age", 2, spec.Int64).With(func(a *spec.Ann) { a.Examples = []string{"31", "47"} })}}
+			box := &spec.Message{Name: "MBox", Fields: []*spec.Field{spec.FM("inner", 1, "."+pkg+".MKid")}}
+			return mockFile(pkg, []*spec.Field{spec.FM("owner", 1, "."+pkg+".MKid"), spec.FM("editor", 2, "."+pkg+".MKid"), spec.FM("reviewers", 3, "."+pkg+".MKid").MapOf(spec.String), spec.FM("watchers", 4, "."+pkg+".MKid").Rep(), spec.FM("box", 5, "."+pkg+".MBox")}, kid, box)
+		}})
+	out = append(out, mockCase{ID: "mock/examples/same-type-two-rpcs", Examples: map[string][]string{"kid.title": {"t1"}}, ExKind: map[string]string{"kid.title": "string"}, Build: func(pkg string) *spec.File {
+		f := mockFile(pkg, []*spec.Field{spec.FM("kid", 1, "."+pkg+".MKid")}, &spec.Message{Name: "MKid", Fields: []*spec.Field{spec.F("title", 1, spec.String).With(func(a *spec.Ann) { a.Examples = []string{"t1"} })}})
+		m0 := f.Services[0].Methods[0]
+		f.Services[0].Methods = append([]*spec.Method{{Name: "Before", In: m0.In, Out: m0.Out, HTTP: &spec.HTTP{Path: "/before", Verb: 2}}}, f.Services[0].Methods...)
+		return f
+	}})
 	return out
 }
 
@@ -331,11 +344,12 @@ func c20(c *Ctx) {
 					samples = append(samples, wireSample{caseID: caseID, docKey: u.f.Package + "/" + svc.Name, schema: closed(op.Responses["200"]), inst: t, what: "mock 200 response", proto: protoText, raw: string(resp.Body)})
 				}
 				for path := range u.mc.Examples {
-					v := lookupPath(t, path)
 					if seen[path] == nil {
 						seen[path] = map[string]bool{}
 					}
-					seen[path][fmt.Sprint(v)] = true
+					for _, v := range lookupPath(t, path) {
+						seen[path][fmt.Sprint(v)] = true
+					}
 				}
 			}
 			gs.Stop()
@@ -393,14 +407,37 @@ func c20(c *Ctx) {
 	c.R.Sample(map[string]any{"case": "mock/examples/string/valid", "definition": "string the_value = 1 [(sebuf.http.field_examples) = {values: [\"alpha\", \"beta gamma\", \"δ\"]}]", "invocations": 50})
 }
 
-func lookupPath(t any, path string) any {
-	cur := t
-	for _, p := range strings.Split(path, ".") {
-		m, ok := cur.(map[string]any)
-		if !ok {
-			return nil
+// lookupPath returns every value a dotted path addresses; "*" stands for every list element /
+// map value. An absent singular field yields nil; an absent or empty container yields nothing.
+func lookupPath(t any, path string) []any {
+	cur := []any{t}
+	segs := strings.Split(path, ".")
+	for si, p := range segs {
+		containerNext := si+1 < len(segs) && segs[si+1] == "*" // an absent/empty list or map has no elements to judge
+		var next []any
+		for _, x := range cur {
+			switch v := x.(type) {
+			case map[string]any:
+				if p == "*" {
+					for _, e := range v {
+						next = append(next, e)
+					}
+				} else if e, ok := v[p]; ok {
+					next = append(next, e)
+				} else if !containerNext {
+					next = append(next, nil)
+				}
+			case []any:
+				if p == "*" {
+					next = append(next, v...)
+				} else {
+					next = append(next, nil)
+				}
+			default:
+				next = append(next, nil)
+			}
 		}
-		cur = m[p]
+		cur = next
 	}
 	return cur
 }
